@@ -273,7 +273,9 @@ class HeterogeneousLinearModel(darsia.Model):
             )
 
         # Initialize result
-        result = np.zeros_like(img, dtype=img.dtype)
+        result = np.zeros_like(
+            img, dtype=np.result_type(img.dtype, self._scaling.dtype, self._offset.dtype)
+        )
         for l_counter, label in enumerate(self.unique_labels):
             tmp = self._scaling[l_counter] * img + self._offset[l_counter]
             mask = self.cached_labels == label
